@@ -59,7 +59,7 @@ Section C09.
      combinations of the flag bits) *)
   Theorem C09_openflags : forall (w : world bstate) id o n flag perm bind,
     all_wrapped (w_objs w) -> olookup id (w_objs w) = Some o ->
-    let rw := wstep base_step rofs_table ff comp_prog w (mkCall id (MV V_OpenFile) [AS n; AI flag; AI perm] bind) in
+    let rw := wrap_wstep base_step rofs_table ff comp_prog w (mkCall id (MV V_OpenFile) [AS n; AI flag; AI perm] bind) in
     (flag <> O_RDONLY -> refused (fst rw) /\ snd rw = w) /\
     (flag = O_RDONLY -> exists q,
         same_answer (r_ans (fst rw)) bind (MV V_OpenFile)
